@@ -4,6 +4,7 @@
 #include "symfp.h"
 #include <cstdio>
 #include <cstdlib>
+#include <map>
 #include <sstream>
 #include <string>
 #include <vector>
@@ -15,7 +16,16 @@ namespace vh {
 inline std::string S(const std::string& a, int i) { return a + std::to_string(i); }
 inline std::string S(const std::string& a, int i, int j) { return a + std::to_string(i) + "_" + std::to_string(j); }
 
-inline Real in(const std::string& n, Real seed, const char* kind = "param") { return symfp::in(n.c_str(), seed, kind); }
+// opt-in for harnesses that build twin models from the same symbolic inputs: with reuseInputs()=true a repeated
+// declaration of an input name returns the value of the first declaration (default: duplicates are an error in the runtime)
+inline bool& reuseInputs() { static bool b = false; return b; }
+inline Real in(const std::string& n, Real seed, const char* kind = "param") {
+    if (!reuseInputs()) return symfp::in(n.c_str(), seed, kind);
+    static std::map<std::string, Real> memo;
+    auto it = memo.find(n);
+    if (it != memo.end()) return it->second;
+    return memo[n] = symfp::in(n.c_str(), seed, kind);
+}
 inline void out(const std::string& n, Real v) { symfp::out(n, v); }
 inline void outV3(const std::string& n, const Vec3& v) { for (int i = 0; i < 3; ++i) out(S(n + "_", i), v[i]); }
 inline void outSV(const std::string& n, const SpatialVec& v) { outV3(n + "_w", v[0]); outV3(n + "_v", v[1]); }
